@@ -596,6 +596,8 @@ def main():
     chk.prove()
     import translate
     translate.static_tie(cm, chk, PID, cm.REPO)      # second, static tie: the loop nests of the tensor basis change regenerated from the source
+    import translate_c04
+    translate_c04.static_b(cm, chk, cm.REPO)         # ... and the bookkeeping state machine (GenC04b.v): managers.py, types.py, constructors, apply
     if args.replay:
         rep = json.load(open(args.replay))
         cases = [rep["input"]] if isinstance(rep.get("input"), dict) and "prog" in rep["input"] else []
